@@ -6,6 +6,7 @@ use deno_ast::SourceTextInfoProvider;
 
 use deno_ast::swc::common::comments::Comment;
 use deno_ast::swc::common::comments::CommentKind;
+use deno_ast::swc::parser::token::Token;
 use deno_ast::view as ast_view;
 use deno_ast::RootNode;
 use once_cell::sync::Lazy;
@@ -97,25 +98,26 @@ pub fn parse_file_ignore_directives(
   // 1. No shebang. The file's leading comments are the program's leading
   //    comments.
   // 2. Shebang, and the program has statements or declarations. The file's
-  //    leading comments are really the first statment/declaration's leading
-  //    comments.
+  //    leading comments are the leading comments of the program's first
+  //    token. (Not of the first statement/declaration: the range of
+  //    `@dec export class A {}` starts at `export`, after its decorators.)
   // 3. Shebang, and the program is empty. The file's leading comments are the
   //    program's trailing comments.
-  let (has_shebang, first_item_range) = match program {
-    ast_view::Program::Module(module) => (
-      module.shebang().is_some(),
-      module.body.first().map(SourceRanged::range),
-    ),
-    ast_view::Program::Script(script) => (
-      script.shebang().is_some(),
-      script.body.first().map(SourceRanged::range),
-    ),
+  let has_shebang = match program {
+    ast_view::Program::Module(module) => module.shebang().is_some(),
+    ast_view::Program::Script(script) => script.shebang().is_some(),
   };
+  let first_token_start = program
+    .token_container()
+    .tokens
+    .iter()
+    .find(|token| !matches!(token.token, Token::Shebang(_)))
+    .map(|token| token.start());
 
   let comments = program.comment_container();
-  let mut initial_comments = match (has_shebang, first_item_range) {
+  let mut initial_comments = match (has_shebang, first_token_start) {
     (false, _) => comments.leading_comments(program.start()),
-    (true, Some(range)) => comments.leading_comments(range.start),
+    (true, Some(start)) => comments.leading_comments(start),
     (true, None) => comments.trailing_comments(program.end()),
   };
   initial_comments
